@@ -414,6 +414,10 @@ impl RaftStorage<ClientRequest, ClientResponse> for FileStore {
         self.apply_manager
             .send(StateApplyRequest::ApplySnapshot { snapshot })
             .await??;
+        //等待镜像(成员信息、数据)加载完成后再继续,避免后续读取到旧的成员信息、后续日志先于镜像数据生效
+        self.apply_manager
+            .send(StateApplyRequest::GetLastAppliedLog)
+            .await??;
         //清除废弃日志
         //delete_through为None时表示本节点日志全部落后于镜像,需清除全部日志
         let split_off_index = if let Some(v) = delete_through {
